@@ -454,6 +454,10 @@ func (abvt *accountBlockTransactionVerifier) descendantBlocks() error {
 		return ErrABDescendantMustBeZero
 	}
 	for _, dBlock := range block.DescendantBlocks {
+		// the parent's hash commits to the descendants' hashes only: each hash must match its content
+		if dBlock.ComputeHash() != dBlock.Hash {
+			return DescendantVerifyError(ErrABHashInvalid)
+		}
 		if err := (&accountBlockVerifier{
 			block:         dBlock,
 			accountStore:  abvt.accountStore,
